@@ -39,7 +39,7 @@ class Prop:
     assumptions = ['numerical accuracy of haversine (libm sin/cos/asin/sqrt) is differential testing against an '
                    'independent formula, not proof: the chain logic is proved for every distance function']
 
-    def messages(self, rng, n):
+    def messages(self, rng, n, zone='normal'):
         msgs = []
         for _ in range(n):
             c = rng.choice(POS_CLASSES + OTHER)
@@ -55,10 +55,18 @@ class Prop:
                 for name, off, w, d_type, signed, varlen in gen.field_offsets(cls):
                     if name == 'lon':
                         scale = 600000 if w == 28 else 600
-                        ov[off] = gen.bits_of_int(int(rng.uniform(-30, 30) * scale), w)
+                        lon = rng.uniform(-30, 30)
+                        if zone == 'antimeridian':     # both sides of the 180 degree meridian
+                            lon = rng.choice([-1, 1]) * (180 - rng.choice([0.0, 0.01, 0.1, rng.uniform(0, 0.6)]))
+                        elif zone == 'polar':
+                            lon = rng.uniform(-180, 180)
+                        ov[off] = gen.bits_of_int(int(lon * scale), w)
                     if name == 'lat':
                         scale = 600000 if w == 27 else 600
-                        ov[off] = gen.bits_of_int(int(rng.uniform(-30, 30) * scale), w)
+                        lat = rng.uniform(-30, 30)
+                        if zone == 'polar':            # close to (and on) the poles
+                            lat = rng.choice([-1, 1]) * (90 - rng.choice([0.0, 0.01, 0.1, rng.uniform(0, 0.6)]))
+                        ov[off] = gen.bits_of_int(int(lat * scale), w)
                 bits = gen.payload_bits(rng, c, overrides=ov)
             else:
                 bits = gen.payload_bits(rng, c, length=rng.choice([None, 300]) if c in ('MessageType8', 'MessageType14') else None)
@@ -68,7 +76,7 @@ class Prop:
             msgs.append(gen.render(bits)[0])
         return msgs
 
-    def filters(self, rng, decoded):
+    def filters(self, rng, decoded, zone='normal'):
         pos = [(m.lat, m.lon) for m in decoded if getattr(m, 'lat', None) is not None and getattr(m, 'lon', None) is not None]
         out = ['A:always', 'A:has:speed', 'A:lt:speed:%d' % rng.choice([5000000, 20000000, 60000000]),
                'A:lt:mmsi:%d' % (500000000 * 1000000), 'N:speed', 'N:lat,lon', 'N:shipname', 'N:speed,course,heading',
@@ -77,6 +85,12 @@ class Prop:
             if pos:
                 la, lo = rng.choice(pos)
                 ref = (round(la + rng.uniform(-5, 5), 3), round(lo + rng.uniform(-5, 5), 3))
+                if zone == 'antimeridian':
+                    # a reference point on either side of the 180 degree meridian, close to it
+                    ref = (round(la + rng.uniform(-0.3, 0.3), 3),
+                           round(rng.choice([-1, 1]) * (180 - rng.choice([0.0, 0.05, rng.uniform(0, 0.5)])), 3))
+                elif zone == 'polar':
+                    ref = (round(max(-90.0, min(90.0, la + rng.uniform(-0.3, 0.3))), 3), round(rng.uniform(-180, 180), 3))
             else:
                 ref = (0.0, 0.0)
             out.append('D:%d:%d:%d' % (micro(ref[0]), micro(ref[1]), rng.choice([1, 50, 512, 512 * 300, 512 * 2000, 512 * 9000]) * UNIT))
@@ -140,15 +154,17 @@ class Prop:
     def run(self, ctx):
         rng = ctx.rng('c19')
         rounds = 6 if ctx.tier == 'quick' else 60
-        for _ in range(rounds):
-            lines = self.messages(rng, 40)
+        for rnd in range(rounds):
+            zone = ['normal', 'antimeridian', 'polar', 'normal', 'normal', 'antimeridian'][rnd % 6]
+            ctx.count('zone:' + zone)
+            lines = self.messages(rng, 40, zone)
             decoded = []
             for i, l in enumerate(lines):
                 try:
                     decoded.append((i, pyais.decode(l)))
                 except Exception:  # noqa
                     pass
-            menu = self.filters(rng, [m for _, m in decoded])
+            menu = self.filters(rng, [m for _, m in decoded], zone)
             chains = []
             for k in (1, 2, 3):
                 for combo in itertools.combinations(rng.sample(menu, min(len(menu), 7)), k):
